@@ -3,7 +3,9 @@ package verifharness
 import (
 	"bytes"
 	"context"
+	"crypto"
 	"crypto/sha256"
+	"crypto/x509"
 	"fmt"
 	"net/http"
 	"net/http/httptest"
@@ -448,6 +450,9 @@ func refJudgeSCT(sct []byte, l *c12Log, got *sunlight.LogEntry) string {
 		return "no usable leaf_index"
 	}
 	t := l.truth[idx]
+	if !t.Archival && t.LeafIndex != idx {
+		return fmt.Sprintf("the SCT claims leaf index %d but the authentic leaf at that position carries index %d", idx, t.LeafIndex)
+	}
 	if t.Timestamp != ts {
 		return fmt.Sprintf("timestamp %d is not the leaf's %d", ts, t.Timestamp)
 	}
@@ -534,3 +539,126 @@ func refHasExt(cp []byte) bool {
 
 var _ = sync.Mutex{}
 var _ = sha256.Sum256
+
+// renderRefLog renders a complete Static CT object set for an arbitrary leaf
+// sequence with the reference encoders (used for logs an honest sequencer would
+// never produce, e.g. leaves whose leaf_index differs from their position).
+func renderRefLog(entries []*RefEntry) (map[string][]byte, Hash) {
+	lh := make([]Hash, len(entries))
+	for i, e := range entries {
+		lh[i] = refLeafHash(refMerkleTreeLeaf(e))
+	}
+	mc := newMerkleCache(lh)
+	objs := map[string][]byte{}
+	for _, t := range refLayout(int64(len(entries)), false) {
+		switch {
+		case t.L >= 0:
+			objs[refTilePath(t)] = refHashTile(mc, t)
+		case t.L == -1:
+			var raw []byte
+			for i := 0; i < t.W; i++ {
+				raw = refTileLeaf(raw, entries[int(t.N)*256+i])
+			}
+			objs[refTilePath(t)] = refGzip(raw)
+		}
+	}
+	return objs, mc.Root(len(entries))
+}
+
+// TestC12IndexMismatch: a (dishonest but internally consistent) log commits
+// leaves whose leaf_index differs from their position; clients with and without
+// AllowRFC6962ArchivalLeafs must not confirm an SCT whose index is not the
+// authentic leaf's, and Entry(i) must not hand out a non-archival leaf whose
+// index is not i.
+func TestC12IndexMismatch(t *testing.T) {
+	r := NewRun(t, "C12", "indexmismatch")
+	r.Rule = "logs rendered by the reference encoders in which two non-archival leaves carry each other's leaf_index (tree head, hash and data tiles all consistent), plus genuine archival leaves; clients with AllowRFC6962ArchivalLeafs false and true; Entry(i) and CheckInclusion over SCTs claiming the position or the embedded index; distinct = (size, allow-archival, call, outcome)"
+	rng := NewRng(r.Seed, "c12m")
+	srv := newC12Server()
+	defer srv.srv.Close()
+	key := detECDSA(rng)
+	spki, _ := x509MarshalPKIX(key.Public())
+	logID := sha256.Sum256(spki)
+	cfg := &ctlog.Config{Key: key}
+	for si, size := range []int{3, 9, 257, 300} {
+		if !mine(si) {
+			continue
+		}
+		var entries []*RefEntry
+		for i := 0; i < size; i++ {
+			e := genRefEntry(rng, false)
+			if len(e.Cert) > 2000 {
+				e.Cert = e.Cert[:100]
+			}
+			e.PreCert = truncate(e.PreCert, 100)
+			e.Archival = false
+			e.LeafIndex = int64(i)
+			e.Timestamp = 1750000000000 + int64(i)
+			entries = append(entries, e)
+		}
+		p, q := rng.Intn(size), rng.Intn(size)
+		for q == p {
+			q = rng.Intn(size)
+		}
+		entries[p].LeafIndex, entries[q].LeafIndex = int64(q), int64(p)
+		arch := -1
+		if size > 3 {
+			arch = rng.Intn(size)
+			for arch == p || arch == q {
+				arch = rng.Intn(size)
+			}
+			entries[arch].Archival, entries[arch].LeafIndex = true, 0
+		}
+		objs, root := renderRefLog(entries)
+		srv.cur.Store(&objs)
+		tree := tlog.Tree{N: int64(size), Hash: tlog.Hash(root)}
+		l := &c12Log{truth: entries, env: &LogEnv{Key: key, LogID: logID}}
+		for _, allow := range []bool{false, true} {
+			cl, err := sunlight.NewClient(&sunlight.ClientConfig{MonitoringPrefix: srv.srv.URL, PublicKey: key.Public(), UserAgent: "verif-harness (verif@harness.test)", Timeout: 250 * time.Millisecond, AllowRFC6962ArchivalLeafs: allow})
+			if err != nil {
+				t.Fatal(err)
+			}
+			ctx := context.Background()
+			for _, pos := range []int{p, q, arch, (p + 1) % size} {
+				if pos < 0 {
+					continue
+				}
+				e, _, err := cl.Entry(ctx, tree, int64(pos))
+				r.Eval(1)
+				r.DistinctKey(fmt.Sprintf("%d/allow=%v/Entry/pos-kind=%v/err=%v", size, allow, pos == p || pos == q, err != nil))
+				info := map[string]any{"size": size, "allow_archival": allow, "position": pos, "embedded_index": entries[pos].LeafIndex, "archival": entries[pos].Archival}
+				if err != nil {
+					continue
+				}
+				if !coveredEqual(e, entries[pos]) {
+					r.Violate("unauthenticated-entry-yielded:indexmismatch", info, "Entry(%d) returned an entry differing from the committed leaf", pos)
+				}
+				if !e.RFC6962ArchivalLeaf && e.LeafIndex != int64(pos) {
+					r.Violate("entry-with-foreign-index-returned", info, "Entry(%d) returned a non-archival leaf whose leaf_index is %d", pos, e.LeafIndex)
+				}
+				if e.RFC6962ArchivalLeaf && !allow {
+					r.Violate("archival-leaf-returned-without-opt-in", info, "Entry(%d) returned an archival leaf although AllowRFC6962ArchivalLeafs is false", pos)
+				}
+			}
+			// SCTs for the leaf committed at position p (whose embedded index is q)
+			e := entries[p]
+			sig, _ := ctlog.VerifDigitallySign(cfg, refMerkleTreeLeaf(e))
+			for name, claimed := range map[string]int64{"claims-position": int64(p), "claims-embedded-index": int64(q)} {
+				sct := refSCT(logID, e.Timestamp, refExtensions(&RefEntry{LeafIndex: claimed}), sig)
+				got, _, err := cl.CheckInclusion(ctx, tree, sct)
+				r.Eval(1)
+				r.DistinctKey(fmt.Sprintf("%d/allow=%v/sct-%s/ok=%v", size, allow, name, err == nil))
+				if err != nil {
+					r.Count("sct_refused", 1)
+					continue
+				}
+				info := map[string]any{"size": size, "allow_archival": allow, "variant": name, "position": p, "embedded_index": q}
+				if msg := refJudgeSCT(sct, l, got); msg != "" {
+					r.Violate("sct-confirmed-wrongly:"+name, info, "CheckInclusion confirmed an SCT that does not match the authentic leaf: %s", msg)
+				}
+			}
+		}
+	}
+}
+
+func x509MarshalPKIX(pub crypto.PublicKey) ([]byte, error) { return x509.MarshalPKIXPublicKey(pub) }
